@@ -61,3 +61,29 @@ func cmdEmit(c *ctx) {
 }
 
 func init() { commands["emit"] = cmdEmit }
+
+// cparse: parse the HLSL / MSL / GLSL text emitted for WGSL files and print the S-expressions (debugging aid).
+func cmdCParse(c *ctx) {
+	for _, f := range c.args {
+		b, _ := os.ReadFile(f)
+		m, res := frontEnd(string(b))
+		if m == nil {
+			fmt.Println("front end:", res)
+			continue
+		}
+		outs, _ := backends(m, "main")
+		for _, t := range []struct{ n, s string }{{"hlsl", outs.hlsl}, {"msl", outs.msl}, {"glsl", outs.glsl}} {
+			sx, err := cparse(t.s)
+			if err != nil {
+				fmt.Println(f, t.n, "PARSE ERROR:", err)
+				continue
+			}
+			if len(c.args) == 1 {
+				fmt.Println(";;", t.n)
+				fmt.Println(sx)
+			}
+		}
+	}
+}
+
+func init() { commands["cparse"] = cmdCParse }
